@@ -179,6 +179,7 @@ func (u *Unit) call(s *State, c *ssa.CallCommon, instr *ssa.Call, k func(*State)
 		u.havocHeaps(s, "call")
 		u.havocGhost(s)
 		u.havocClosureCells(s, c)
+		u.copyBackInterior(s)
 	}
 	if !strings.HasPrefix(name, "fmt.") && !strings.HasPrefix(name, "errors.") {
 		u.note("unmodelled call %s: results unconstrained", name)
@@ -364,6 +365,7 @@ func (u *Unit) applyContract(s *State, fc *FuncContract, callee *ssa.Function, n
 		}
 		u.havocHeaps(s, "call")
 		u.havocGhost(s)
+		u.copyBackInterior(s)
 	}
 	// results
 	var res []Term
